@@ -22,6 +22,31 @@ func init() {
 // and wrappers that loop over names calling it and propagate the error.
 var independenceSkips = map[*ssa.Function]string{}
 
+// independenceOne: the functions holding the comparison itself -> "" or the operand that is
+// not the Modality() of a type.
+var independenceOne = map[*ssa.Function]string{}
+
+func phiLeaves(v ssa.Value) []ssa.Value {
+	var out []ssa.Value
+	seen := map[ssa.Value]bool{}
+	var walk func(v ssa.Value)
+	walk = func(v ssa.Value) {
+		if seen[v] {
+			return
+		}
+		seen[v] = true
+		if ph, ok := v.(*ssa.Phi); ok {
+			for _, e := range ph.Edges {
+				walk(e)
+			}
+			return
+		}
+		out = append(out, v)
+	}
+	walk(v)
+	return out
+}
+
 func independenceFuncs(p *Program) map[*ssa.Function]bool {
 	out := map[*ssa.Function]bool{}
 	for _, fn := range p.SrcFuncs {
@@ -41,8 +66,21 @@ func independenceFuncs(p *Program) map[*ssa.Function]bool {
 				mc, ok := v.(*ssa.Call)
 				return ok && mc.Common().IsInvoke() && mc.Common().Method.Name() == "Modality"
 			}
+			wrong := ""
 			if !isMod(call.Common().Value) || !isMod(call.Common().Args[0]) {
-				continue
+				// a comparison fed by something else on some path (a field of the type, a
+				// selected mode) is still the check, but it no longer compares the modes the
+				// names live in
+				for _, side := range []ssa.Value{call.Common().Value, call.Common().Args[0]} {
+					for _, leaf := range phiLeaves(side) {
+						if !isMod(leaf) {
+							wrong = displayKey(leaf)
+						}
+					}
+				}
+				if wrong == "" {
+					continue
+				}
 			}
 			for _, b := range view.Blocks() {
 				if !view.holdsAt(b, call, factFalse) {
@@ -51,6 +89,7 @@ func independenceFuncs(p *Program) map[*ssa.Function]bool {
 				ins := view.Instrs(b)
 				if ret, ok := ins[len(ins)-1].(*ssa.Return); ok && isErrorValue(ret.Results[0], view, b, map[ssa.Value]bool{}) {
 					out[fn] = true
+					independenceOne[fn] = wrong
 				}
 			}
 		}
@@ -125,6 +164,18 @@ func runIndependence(p *Program, r *RuleResult) {
 				"the loop over the context's names can complete an iteration without comparing that name's mode with the provider's (iteration ending at "+w+"): some channel of the context is never checked")
 		} else {
 			r.add(fnName(f), "checks-every-name", Holds, p.pos(f.Pos()), "every iteration of the loop over the names runs the mode comparison")
+		}
+	}
+	for f := range ind {
+		w, isOne := independenceOne[f]
+		if !isOne {
+			continue
+		}
+		if w != "" {
+			r.add(fnName(f), "compares-the-modes-the-names-live-in", Violated, p.pos(f.Pos()),
+				"on some path the comparison is fed by "+w+" instead of the Modality() of the antecedent's / the provider's whole type: a name of type m \\/ n A lives in mode n, whatever it can be shifted to")
+		} else {
+			r.add(fnName(f), "compares-the-modes-the-names-live-in", Holds, p.pos(f.Pos()), "both operands are Modality() of a whole type on every path")
 		}
 	}
 	d := findTypecheckDriver(p)
